@@ -430,6 +430,14 @@ func phasesDecide(cases []*Case) ([]Finding, map[string]int) {
 				stats["pipeline:compared"]++
 			}
 			stats["steps:compared"]++
+			// hypothesis of the C07 order-independence theorems, evaluated by the driver on the index the phase ranges over
+			if ka, ok := get(outs[i], "keysApart").(bool); ok {
+				if ka {
+					stats["c07-hypothesis:keys-apart:held"]++
+				} else {
+					stats["c07-hypothesis:keys-apart:not-met"]++
+				}
+			}
 			before := get(pc.steps[i], "doc")
 			implDoc := get(pc.after[i], "doc")
 			if !jsonEq(before, implDoc) {
